@@ -83,6 +83,11 @@ CHECKS = {
                      "job must request exactly the named (container type, bank) pairs with the backend's idiom, one initialised token per use on miniAOD, fail cleanly on an absent ATLAS bank, "
                      "and compile/link only through the headers/libraries the specification lists. Every malformed declaration or call of the enumerated matrix must be refused.",
                 note="a decoy bank of the same name under another container type is present in half of the events", ref="4/C06"),
+    "C10": dict(cat="exploration", technique="emitted code compiled and executed against model classes GENERATED FROM THE SAME DECLARATIONS the query carries; icontract post-condition on base_type_member_access; logging handler for the undeclared-method warning",
+                text="One schema per backend holds a method for every declared-signature form (value types, object by value / pointer / const pointer / pointer-to-pointer, collections by value / "
+                     "reference / pointer of scalars, objects and object pointers, deref_count 1 and 2 through operator->/operator* layers, tree_type, nested-scope enums, undeclared); each is driven "
+                     "through chain templates of length 1-4 and the job's values and booked types are compared with Python and the declarations.",
+                note="signature forms are an enumerated catalogue, values are random; elements by pointer (ATLAS) and by value (CMS)", ref="4/C10"),
 }
 
 PENDING_REASON = "check not built yet at this commit (work in progress, see DESIGN.md section 4)"
